@@ -396,6 +396,58 @@ CONFIG = [
      {'locks': {},
       'calls': {'self._save_part': 'save_part', 'result.groups': 'groups',
                 'result.group': 'group'}}),
+    ('add_to_store', 'searchkit/results_store.py',
+     'ResultStoreBase._add_to_store',
+     {'locks': STORE_LOCKS,
+      'calls': {'self._allocate_next': 'allocate_next'},
+      'cells': {'store': 'reverse_map', 'value': 'value', 'idx': 'idx'}}),
+    ('allocate_next', 'searchkit/results_store.py',
+     'ResultStoreBase._allocate_next',
+     {'locks': STORE_LOCKS,
+      'calls': {'self.data.items': 'scan_data'},
+      'cells': {'self.allocations': 'allocations', 'self.data': 'data',
+                'value': 'value'}}),
+    ('allocations', 'searchkit/results_store.py',
+     'ResultStoreBase.allocations',
+     {'locks': STORE_LOCKS,
+      'calls': {'self.f_preallocator': 'preallocator'},
+      'cells': {'self._allocations': 'current_block', 'self.data': 'data',
+                'self.prealloc_block_size': 'bsize'}}),
+    ('store_add', 'searchkit/results_store.py', 'ResultStoreBase.add',
+     {'locks': STORE_LOCKS,
+      'calls': {'self._add_to_store': 'add_to_store'},
+      'cells': {'self.value_store': 'value_store',
+                'self.tag_store': 'tag_store',
+                'self.sequence_id_store': 'sequence_id_store'}}),
+    ('save_part', 'searchkit/result.py', 'SearchResult._save_part',
+     {'locks': {},
+      'calls': {'self.field_info.index_to_name': 'index_to_name',
+                'self.field_info.ensure_type': 'ensure_type',
+                'self.results_store.add': 'store_add',
+                'self.data.append': 'parts_append'},
+      'cells': {'self.field_info': 'field_info', 'value': 'value'}}),
+    ('get_store_id', 'searchkit/result.py',
+     'SearchResultBase._get_store_id',
+     {'locks': {}, 'cells': {'self.data': 'parts'}}),
+    ('result_get', 'searchkit/result.py', 'SearchResultBase.get',
+     {'locks': {}, 'calls': {'self._get_store_id': 'get_store_id'},
+      'cells': {'self.results_store': 'store'}}),
+    ('collection_add', 'searchkit/search.py', 'SearchResultsCollection.add',
+     {'locks': {},
+      'calls': {'result.register_results_store': 'register_store',
+                'self.search_catalog.source_id_to_path': 'resolve_source'},
+      'cells': {'self._results_by_path': 'by_path'}}),
+    ('filtered_dir', 'searchkit/search.py', 'SearchCatalog._filtered_dir',
+     {'locks': {},
+      'calls': {'os.path.isfile': 'isfile', 'path.endswith': 'endswith_log',
+                'sorted': 'sorted', 'new_contents.append': 'keep'},
+      'cells': {'logrotated': 'groups', 'limit': 'limit'}}),
+    ('register', 'searchkit/search.py', 'SearchCatalog.register',
+     {'locks': {},
+      'calls': {'self._expand_path': 'expand_path',
+                'self.get_source_id': 'get_source_id'},
+      'cells': {'self._entries': 'entries',
+                'self._search_tags': 'search_tags'}}),
 ]
 
 ARG0 = {'Acq', 'Rel', 'Rd', 'Wr', 'Call', 'Handler', 'RaiseE'}
